@@ -116,15 +116,83 @@ def check_change_flag(rep, rule, fi, state):
   return ok
 
 
+def _guarded_values(fi, stmts, name, mode_atom, guard=None):
+  """[(formula, value_expr)] for the assignments to `name` in stmts; formula over
+  the atoms FWD / REV.  if/elif chains, conditional expressions."""
+  from sa import formula
+  guard = formula.TRUE if guard is None else guard
+  out = []
+  for st in stmts:
+    if isinstance(st, ast.Assign) and len(st.targets) == 1 and isinstance(
+        st.targets[0], ast.Name) and st.targets[0].id == name:
+      v = st.value
+      if isinstance(v, ast.IfExp):
+        c = formula.bool_formula(v.test, mode_atom)
+        out.append((guard & c, v.body))
+        out.append((guard & ~c, v.orelse))
+      else:
+        out.append((guard, v))
+    elif isinstance(st, ast.If):
+      c = formula.bool_formula(st.test, mode_atom)
+      out += _guarded_values(fi, st.body, name, mode_atom, guard & c)
+      out += _guarded_values(fi, st.orelse, name, mode_atom, guard & ~c)
+  return out
+
+
+def _enqueue_form(lp, wl):
+  """the construct that puts neighbours on the worklist:
+  -> (element name, source expr, condition expr or None) or None"""
+  for n in ast.walk(lp):
+    if isinstance(n, ast.For) and isinstance(n.target, ast.Name):
+      apps = [c for c in ast.walk(n) if isinstance(c, ast.Call) and
+              core.norm(c.func) == wl + '.append' and len(c.args) == 1 and
+              core.norm(c.args[0]) == n.target.id]
+      if len(apps) == 1 and not any(isinstance(x, (ast.Break, ast.Continue, ast.Return))
+                                    for x in ast.walk(n)):
+        if len(n.body) == 1 and isinstance(n.body[0], ast.If) and not n.body[0].orelse \
+            and any(apps[0] is x for x in ast.walk(n.body[0])):
+          return n.target.id, n.iter, n.body[0].test
+        if len(n.body) == 1 and isinstance(n.body[0], ast.Expr) and n.body[0].value is apps[0]:
+          return n.target.id, n.iter, None
+    comp = None
+    if isinstance(n, ast.Call) and core.norm(n.func) == wl + '.extend' and len(n.args) == 1:
+      comp = n.args[0]
+    if isinstance(n, ast.AugAssign) and core.norm(n.target) == wl and isinstance(n.op, ast.Add):
+      comp = n.value
+    if isinstance(comp, (ast.ListComp, ast.GeneratorExp)) and len(comp.generators) == 1 \
+        and isinstance(comp.generators[0].target, ast.Name) and \
+        core.norm(comp.elt) == comp.generators[0].target.id:
+      g = comp.generators[0]
+      cond = None
+      if len(g.ifs) == 1:
+        cond = g.ifs[0]
+      elif len(g.ifs) > 1:
+        cond = ast.BoolOp(op=ast.And(), values=list(g.ifs))
+      return g.target.id, g.iter, cond
+  return None
+
+
 def check_driver(model, rep, rule):
   """cfg.GraphVisitor._visit_internal: a worklist that reaches a fixed point."""
+  from sa import formula
+  from sa import tpl
   fi = model.func(CFG, 'GraphVisitor._visit_internal')
   rep.touch(CFG)
   wl = [n for n in ast.walk(fi.node) if isinstance(n, ast.While)]
-  ok = len(wl) == 1
+  ok = len(wl) == 1 and isinstance(wl[0].test, ast.Name)
   facts = {}
   if ok:
     lp = wl[0]
+    wl_name = lp.test.id
+    mode = fi.params()[0]
+
+    def mode_atom(e):
+      t = tpl.xnorm(fi, e, e) if isinstance(e, ast.Name) else core.norm(e)
+      if t in ('%s == _WalkMode.FORWARD' % mode, '%s is _WalkMode.FORWARD' % mode):
+        return 'FWD'
+      if t in ('%s == _WalkMode.REVERSE' % mode, '%s is _WalkMode.REVERSE' % mode):
+        return ~atom('FWD')        # the assert admits only the two modes
+      return None
     fake = ast.FunctionDef(name='_iter', args=fi.node.args, body=lp.body,
                            decorator_list=[], lineno=lp.lineno)
     g = pycfg.CFG(fake)
@@ -134,67 +202,61 @@ def check_driver(model, rep, rule):
     jumps = [n for n in ast.walk(lp) if isinstance(n, (ast.Break, ast.Continue,
                                                        ast.Return))]
     facts['visit_node_per_iteration'] = rng
-    facts['jumps'] = [core.norm(j) for j in jumps]
-    wl_name = core.norm(lp.test)
-    ok = rng == (1, 1) and not jumps and isinstance(lp.test, ast.Name)
-    # re-enqueue rule: the loop over the neighbours (next / prev)
-    nb = {core.norm(n.targets[0]) for n in ast.walk(lp) if isinstance(n, ast.Assign)
-          and core.norm(n.value) in ('node.next', 'node.prev') or (
-              isinstance(n, ast.Assign) and isinstance(n.value, ast.Attribute) and
-              n.value.attr in ('next', 'prev'))}
-    inner = [n for n in ast.walk(lp) if isinstance(n, ast.For) and
-             core.norm(n.iter) in nb]
-    ok = ok and len(inner) == 1
+    ok = rng == (1, 1) and not jumps
+    # initial worklist per direction
+    pre = fi.node.body[:fi.node.body.index(lp)]
+    init = _guarded_values(fi, pre, wl_name, mode_atom)
+    facts['initial'] = [(str(f), core.norm(v)) for f, v in init]
+
+    def under(vals, assume, want):
+      hit = [core.norm(v) for f, v in vals if formula.implies(assume, f)[0]]
+      return bool(hit) and all(h in want for h in hit)
+    FWD = atom('FWD')
+    ok = ok and under(init, FWD, ('[self.graph.entry]', 'list((self.graph.entry,))')) \
+        and under(init, ~FWD, ('list(self.graph.exit)', '[*self.graph.exit]'))
+    # dequeued node, closed set, revisit flag
+    pops = [n for n in ast.walk(lp) if isinstance(n, ast.Assign) and isinstance(
+        n.value, ast.Call) and core.norm(n.value.func) == wl_name + '.pop' and
+            isinstance(n.targets[0], ast.Name)]
+    rv = [n.targets[0].id for n in ast.walk(lp) if isinstance(n, ast.Assign) and
+          isinstance(n.value, ast.Call) and core.norm(n.value.func) == 'self.visit_node'
+          and isinstance(n.targets[0], ast.Name)]
+    ok = ok and len(pops) == 1 and len(rv) == 1
+    enq = _enqueue_form(lp, wl_name) if ok else None
+    ok = ok and enq is not None
     if ok:
-      ilp = inner[0]
-
-      rv = [core.norm(n.targets[0]) for n in ast.walk(lp) if isinstance(n, ast.Assign)
-            and isinstance(n.value, ast.Call) and core.norm(n.value.func) ==
-            'self.visit_node']
-      closed_adds = [core.norm(c.func.value) for c in ast.walk(lp)
-                     if isinstance(c, ast.Call) and isinstance(c.func, ast.Attribute)
-                     and c.func.attr == 'add' and c.args and core.norm(c.args[0]) ==
-                     (core.norm([n for n in ast.walk(lp) if isinstance(n, ast.Assign)
-                                 and isinstance(n.value, ast.Call) and isinstance(
-                                     n.value.func, ast.Attribute) and
-                                 n.value.func.attr == 'pop'][0].targets[0])
-                      if any(isinstance(n, ast.Assign) and isinstance(n.value, ast.Call)
-                             and isinstance(n.value.func, ast.Attribute) and
-                             n.value.func.attr == 'pop' for n in ast.walk(lp)) else '')]
-      revisit_name = rv[0] if rv else None
-      closed_name = closed_adds[0] if closed_adds else None
-
-      def at(e):
-        t = core.norm(e)
-        if revisit_name and t == revisit_name:
-          return 'REVISIT'
-        if closed_name and t.endswith(' in ' + closed_name):
-          return 'VISITED'
-        return None
-
-      from sa import formula
-      conds = []
-      for n in ast.walk(ilp):
-        if isinstance(n, ast.If) and any(
-            isinstance(c, ast.Call) and core.norm(c.func) == wl_name + '.append'
-            for b in n.body for c in ast.walk(b)):
-          conds.append(n.test)
-      appends = [c for c in ast.walk(ilp) if isinstance(c, ast.Call) and
-                 core.norm(c.func) == wl_name + '.append']
-      facts['append_conditions'] = [core.norm(c) for c in conds]
-      if len(appends) == 1 and len(conds) == 1:
-        f = formula.bool_formula(conds[0], at)
+      nodev = pops[0].targets[0].id
+      closed = [core.norm(c.func.value) for c in ast.walk(lp) if isinstance(c, ast.Call)
+                and isinstance(c.func, ast.Attribute) and c.func.attr == 'add' and
+                c.args and core.norm(c.args[0]) == nodev]
+      ok = len(closed) == 1 and core.norm(
+          [c for c in ast.walk(lp) if isinstance(c, ast.Call) and core.norm(c.func) ==
+           'self.visit_node'][0].args[0]) == nodev
+    if ok:
+      elem, src, cond = enq
+      # neighbours per direction
+      if isinstance(src, ast.Name):
+        nb = _guarded_values(fi, lp.body, src.id, mode_atom)
+      elif isinstance(src, ast.IfExp):
+        c = formula.bool_formula(src.test, mode_atom)
+        nb = [(c, src.body), (~c, src.orelse)]
+      else:
+        nb = [(formula.TRUE, src)]
+      facts['neighbours'] = [(str(f), core.norm(v)) for f, v in nb]
+      ok = under(nb, FWD, (nodev + '.next',)) and under(nb, ~FWD, (nodev + '.prev',))
+      if cond is not None:
+        def at(e):
+          t = core.norm(e)
+          if t == rv[0]:
+            return 'REVISIT'
+          if t == '%s in %s' % (elem, closed[0]):
+            return 'VISITED'
+          return None
+        f = formula.bool_formula(cond, at)
+        facts['enqueue_condition'] = core.norm(cond)
         o1, _ = implies(atom('REVISIT'), f)
         o2, _ = implies(~atom('VISITED'), f)
-        ok = o1 and o2
-      elif len(appends) == 1 and not conds:
-        ok = True
-      else:
-        ok = False
-    ok = ok and pat.has(fi.node, '_C_ = _N_.next') and pat.has(
-        fi.node, '_C_ = _N_.prev') and pat.has(
-            fi.node, '%s = [self.graph.entry]' % wl_name) and pat.has(
-                fi.node, '%s = list(self.graph.exit)' % wl_name)
+        ok = ok and o1 and o2
   rep.check(ok, rule, '%s:worklist' % fi.site,
             'every dequeued node must be evaluated, and every neighbour '
             're-enqueued whenever the node asked for a revisit or the neighbour '
